@@ -162,7 +162,20 @@ OPS = [
     (r"(?<![+\w'])\+(?![+=])", ["-"]), (r"(?<![\-\w(,=<>|&!*/+ ] )(?<=[\w)\]] )-(?![\-=>])", ["+"]),
     (r"\+=", ["-="]), (r"-=", ["+="]),
     (r"\btrue\b", ["false"]), (r"\bfalse\b", ["true"]),
+    # second generation (run with --gen2): negations dropped, min/max, break/continue, sibling constants and constructors
+    (r"\.min\(", [".max("]), (r"\.max\(", [".min("]), (r"\bbreak;", ["continue;"]),
+    (r"(?<![=!<>&|^%*/+\-])!(?=[A-Za-z_(])(?!\w*!)", [""]),
+    (r"\bTRUE_TAG\b", ["FALSE_TAG"]), (r"\bFALSE_TAG\b", ["TRUE_TAG"]), (r"\bNULL_TAG\b", ["FALSE_TAG"]), (r"\bSTRING_TAG\b", ["NUMBER_TAG"]),
+    (r"\bNUMBER_TAG\b", ["STRING_TAG"]), (r"\bCONTAINER_TAG\b(?<!_CONTAINER_TAG)", ["STRING_TAG"]),
+    (r"\bARRAY_CONTAINER_TAG\b", ["OBJECT_CONTAINER_TAG"]), (r"\bOBJECT_CONTAINER_TAG\b", ["ARRAY_CONTAINER_TAG"]), (r"\bSCALAR_CONTAINER_TAG\b", ["ARRAY_CONTAINER_TAG"]),
+    (r"\bOrdering::Less\b", ["Ordering::Greater"]), (r"\bOrdering::Greater\b", ["Ordering::Less"]), (r"\bOrdering::Equal\b", ["Ordering::Less"]),
+    (r"\bmake_true_jentry\b", ["make_false_jentry"]), (r"\bmake_false_jentry\b", ["make_true_jentry"]), (r"\bmake_string_jentry\b", ["make_number_jentry"]),
+    (r"\bmake_number_jentry\b", ["make_string_jentry"]), (r"\bmake_container_jentry\b", ["make_string_jentry"]),
+    (r"\bpush_back\b", ["push_front"]), (r"\bpop_front\b", ["pop_back"]), (r"\bis_some\(\)", ["is_none()"]), (r"\bis_none\(\)", ["is_some()"]), (r"\bis_empty\(\)", ["len() == 1"]),
+    (r"\bMode::First\b", ["Mode::All"]), (r"\bMode::Array\b", ["Mode::Mixed"]), (r"\bMode::Mixed\b", ["Mode::Array"]), (r"\bMode::All\b", ["Mode::First"]),
+    (r"\bsaturating_add\b", ["wrapping_add"]), (r"\.rev\(\)", [""]), (r"\bunwrap_or\(false\)", ["unwrap_or(true)"]),
 ]
+GEN1 = 14   # the first 14 operators are the first generation
 NUM = re.compile(r"(?<![\w.])(\d+)(?![\w.]|_)")
 
 
@@ -174,7 +187,8 @@ def mutants_of(path, rel):
         if not all(mask[a:b]): return False
         return not any(s <= a < e for s, e in ex)
     out = []
-    for pat, reps in OPS:
+    ops = OPS[GEN1:] if GEN2 else OPS[:GEN1]
+    for pat, reps in ops:
         for m in re.finditer(pat, src):
             a, b = m.span()
             if not ok(a, b): continue
@@ -192,7 +206,7 @@ def mutants_of(path, rel):
                     continue
             for r in reps:
                 out.append({"file": rel, "line": line, "pos": a, "len": b - a, "new": r, "old": src[a:b], "text": ltxt.strip()[:120]})
-    for m in NUM.finditer(src):
+    for m in ([] if GEN2 else NUM.finditer(src)):
         a, b = m.span(1)
         if not ok(a, b): continue
         ltxt = src[src.rfind("\n", 0, a) + 1: src.find("\n", a)]
@@ -203,7 +217,7 @@ def mutants_of(path, rel):
         for nv in ([v + 1] if v == 0 else [v + 1, v - 1]):
             out.append({"file": rel, "line": line, "pos": a, "len": b - a, "new": str(nv), "old": m.group(1), "text": ltxt.strip()[:120]})
     # deleted statements
-    for m in re.finditer(r"^[ \t]*(continue;|[A-Za-z_*.\[\]() ]+ (\+|-)= [^;\n]+;)[ \t]*$", src, re.M):
+    for m in [] if GEN2 else re.finditer(r"^[ \t]*(continue;|[A-Za-z_*.\[\]() ]+ (\+|-)= [^;\n]+;)[ \t]*$", src, re.M):
         a, b = m.span(1)
         if not ok(a, a + 3): continue
         if any(s <= a < e for s, e in ex): continue
@@ -269,8 +283,11 @@ def try_mutant(w, mu, strs):
         open(path, "w").write(orig)
 
 
+GEN2 = "--gen2" in sys.argv
+
+
 def main():
-    a = sys.argv[1:]
+    a = [x for x in sys.argv[1:] if x != "--gen2"]
     cmd = a[0] if a else "report"
     def opt(name, default):
         return a[a.index(name) + 1] if name in a else default
